@@ -360,6 +360,21 @@ class Interp:
                 terms.append(sym.zstr(a.fields["s"])); sorts.append(z3.StringSort())
             elif isinstance(a, Opaque):
                 terms.append(a.t); sorts.append(a.t.sort())
+            elif isinstance(a, Rec) and a.fields and all(
+                sym.is_strlike(mk(v)) or sym.is_intlike(mk(v)) or sym.is_boollike(mk(v)) or (isinstance(v, Rec) and v.cls_name == "Path")
+                for v in a.fields.values()
+            ):
+                # a flat record (configuration object): the function depends on its fields, in field-name order
+                for k_ in sorted(a.fields):
+                    v = mk(a.fields[k_])
+                    if isinstance(v, Rec):
+                        terms.append(sym.zstr(v.fields["s"])); sorts.append(z3.StringSort())
+                    elif sym.is_strlike(v):
+                        terms.append(sym.zstr(v)); sorts.append(z3.StringSort())
+                    elif sym.is_boollike(v):
+                        terms.append(sym.zbool(v)); sorts.append(z3.BoolSort())
+                    else:
+                        terms.append(sym.zint(v)); sorts.append(z3.IntSort())
             else:
                 raise Unsupported(f"opaque spec function argument {type(a).__name__}")
         reveal = getattr(self, "reveal", ())
